@@ -12,7 +12,7 @@ EXTENDS OneD
 \* ---------------------------------------------------------------- symbols
 SymRuns(sym, n) ==      \* n: the characters the symbol carries, check characters included
   CASE sym = "EAN13" -> EAN13Runs(n) [] sym = "EAN8" -> EAN8Runs(n) [] sym = "UPCA" -> UPCARuns(n)
-    [] sym = "UPCE" -> UPCERuns(n) [] sym = "C128" -> C128Runs(n) [] sym = "C93" -> C93Runs(n)
+    [] sym = "UPCE" -> UPCERuns(n) [] sym = "C128" -> C128Runs(n) [] sym = "C93" -> C93Runs(n) [] sym = "C39K" -> C39Runs(n)
 SymLen(sym) == CASE sym = "EAN13" -> 13 [] sym = "EAN8" -> 8 [] sym = "UPCA" -> 12 [] sym = "UPCE" -> 8 [] OTHER -> 0
 MainRuns(sym) == CASE sym = "EAN13" -> 59 [] sym = "EAN8" -> 43 [] sym = "UPCA" -> 59 [] sym = "UPCE" -> 33 [] OTHER -> 0
 \* the complete number for a payload (check character(s) appended by the standard's formula)
@@ -21,17 +21,21 @@ Complete(sym, p) ==
     [] sym = "UPCE" -> Append(p, CheckUPCE(p))
     [] sym = "C128" -> Append(p, Check128(p))
     [] sym = "C93" -> p \o <<CheckC93(p), CheckK93(p)>>
+    [] sym = "C39K" -> Append(p, Check39(p))
 \* replacement characters at position i of a complete symbol
 Alphabet(sym, n, i) ==
   CASE sym \in {"EAN13", "EAN8", "UPCA"} -> 0..9
     [] sym = "UPCE" -> IF i = 1 THEN {0, 1} ELSE 0..9
     [] sym = "C128" -> 0..105
     [] sym = "C93" -> 0..46
+    [] sym = "C39K" -> 0..42
 Substitutions(sym, n) == {<<i, d>> \in (1..Len(n)) \X (0..105) : d \in Alphabet(sym, n, i) /\ d # n[i]}
 Subst(n, s) == [n EXCEPT ![s[1]] = s[2]]
 
 \* ---------------------------------------------------------------- readers
 \* what the library's reader for `sym` may answer on a clean image of the symbol r
+\* rd = "own": the matching reader; rd = "multi": the multi-format UPC/EAN reader (EAN-13, EAN-8, UPC-E readers in turn)
+ReaderFor(sym, rd) == IF rd = "multi" THEN "MULTI" ELSE sym
 Forward(sym, r) == ReadSym(sym, r)
 Backward(sym, r) == ReadSym(sym, Rev(r))
 \* the text returned for a UPC/EAN symbol carries a verifying check digit
@@ -41,15 +45,19 @@ TextVerifies(sym, t) ==
        [] sym = "EAN8" -> Len(t) = 8 /\ Verifies10(UnBytes(t))
        [] sym = "UPCA" -> Len(t) = 12 /\ Verifies10(UnBytes(t))
        [] sym = "UPCE" -> Len(t) = 8 /\ t[1] \in {48, 49} /\ CheckUPCE(SubSeq(UnBytes(t), 1, 7)) = t[8] - 48
+       [] sym = "MULTI" -> \/ (Len(t) \in {8, 13} /\ Verifies10(UnBytes(t)))
+                           \/ (Len(t) = 8 /\ t[1] \in {48, 49} /\ CheckUPCE(SubSeq(UnBytes(t), 1, 7)) = t[8] - 48)
        [] OTHER -> TRUE
-\* verdict on an observed answer: "ok", "tolerated" (a reading of the reversed row that the exact reference reader does
-\* not produce but whose check digit verifies - the library's tolerant pattern matcher, outside this property) or a reason
+\* verdict on an observed answer: "ok", "tolerated" (a reading that the exact reference reader does not produce but whose
+\* check digit verifies: of the reversed row through the library's tolerant pattern matcher, or - multi-format reader only -
+\* of a longer symbol as an EAN-8 number because the EAN-8 row decoder searches for its guards and skips the surplus
+\* digits; both are misreadings of a damaged symbol, not returned numbers with a failing check digit) or a reason
 ReadVerdict(sym, r, err, text, orient) ==
   LET f == Forward(sym, r) b == Backward(sym, r) IN
   IF f.ok THEN (IF err = 0 /\ text = f.text /\ orient = 0 THEN "ok" ELSE "valid symbol not read as its content")
   ELSE IF b.ok THEN (IF err = 0 /\ text = b.text /\ orient = 180 THEN "ok" ELSE "reversed valid symbol not read as its content")
   ELSE IF err = 1 THEN "ok"
-  ELSE IF orient = 180 /\ TextVerifies(sym, text) THEN "tolerated"
+  ELSE IF (orient = 180 \/ sym = "MULTI") /\ TextVerifies(sym, text) THEN "tolerated"
   ELSE "symbol whose check characters do not verify was read"
 \* add-on: r = main symbol, gap, add-on.  k = index of the first add-on run.  `len` = number of digits the add-on really has
 AddOnVerdict(r, k, len, ext) ==
